@@ -297,3 +297,87 @@ class LoadRoutingTablesStep:
 
     def ensures_this_table_goes_to_this_chip_for_this_application(x, y, table, app_id, _trace):
         return len(_trace) == 1 and _trace[0] == ("load_entries", table, ("app_id", app_id), ("x", x), ("y", y))
+
+
+# ---- routing_tree_to_tables: one hop of one tree (fragment), and one entry of the tables built from the collected hops -------------
+from pyvc.values import TOpt as _TOpt10, TTuple as _TT10, ObjV as _ObjV10   # noqa: E402
+import z3 as _z3_10   # noqa: E402
+
+OUTS = TSmallSet(ROUTES)
+PAIR = _TRec10("InOutPair", ins=_TRec10("InSet"), outs=OUTS)
+
+
+def _rs_chip(E, obj, args, kwargs, st, node):
+    """route_sets[x, y]: the chip's collection of (key, mask) -> (ins, outs), an opaque object that remembers its chip"""
+    return [(st, _ObjV10("ChipRoutes", {"chip": args[0]}), None)]
+
+
+def _cr_contains(E, obj, args, kwargs, st, node):
+    s = st.copy()
+    s.trace = _ListV10(s.trace.items + (("has", obj.fields["chip"], args[0]),))
+    return [(s, st.env["g_seen_before"], None)]
+
+
+def _cr_get(E, obj, args, kwargs, st, node):
+    s = st.copy()
+    s.trace = _ListV10(s.trace.items + (("get", obj.fields["chip"], args[0]),))
+    return [(s, st.env["g_pair"], None)]
+
+
+def _cr_set(E, obj, args, kwargs, st, node):
+    s = st.copy()
+    s.trace = _ListV10(s.trace.items + (("new_entry", obj.fields["chip"], args[0], args[1]),))
+    return [(s, _NONE10, None)]
+
+
+def _ins_add(E, obj, args, kwargs, st, node):
+    s = st.copy()
+    s.trace = _ListV10(s.trace.items + (("in_added", args[0]),))
+    return [(s, _NONE10, None)]
+
+
+def _pair_new(E, obj, args, kwargs, st, node):
+    from pyvc.values import LitSet, EngineError
+    ins = args[0]
+    if not (isinstance(ins, LitSet) and len(ins.items) == 1 and ins.conds is None):
+        raise EngineError("InOutPair(ins, ...) with ins other than a one-element set literal")
+    return [(st, _ObjV10("InOutPairNew", {"only_in": ins.items[0], "outs": args[1]}), None)]
+
+
+@contract("rig/routing_table/utils.py::routing_tree_to_tables@forbody:1")
+class TreeHopToRouteSet:
+    """one hop of a tree: on the hop's own chip, under the net's own (key, mask), the direction the packet ARRIVES from is the
+    opposite of the link it was sent over (None at the source); a chip first seen for this key gets an entry with exactly
+    that arrival direction and exactly the hop's outgoing directions; a chip seen before (another tree with the same key,
+    or another branch) must leave by exactly the same directions - otherwise MultisourceRouteError naming key, mask and
+    chip - and then only gains the arrival direction"""
+    properties = ("C10", "C01")
+    params = dict(direction=_TOpt10(TInt(0, 5)), x=TInt(0, 255), y=TInt(0, 255), out_directions=OUTS, key=TInt(0, 2 ** 32 - 1), mask=TInt(0, 2 ** 32 - 1),
+                  route_sets=_TRec10("RouteSets"), InOutPair=_TRec10("PairClass"), g_seen_before=TBool(), g_pair=PAIR)
+    fragment_result = ()
+    fragment_head = "for direction, (x, y), out_directions in routing_tree.traverse():"
+    externals = {"RouteSets.__getitem__": _rs_chip, "ChipRoutes.__contains__": _cr_contains, "ChipRoutes.__getitem__": _cr_get,
+                 "ChipRoutes.__setitem__": _cr_set, "InSet.add": _ins_add, "PairClass.__call__": _pair_new}
+    raises = {"MultisourceRouteError": None}
+    options = {"int_class": "rig/routing_table/entries.py::Routes", "no_merge": True}
+    assumptions = ["the per-chip collections are opaque (look-ups, additions and new entries are recorded; whether the key was seen before on this chip "
+                   "and what it then holds are ghosts); InOutPair(ins, outs) is the record of its arguments"]
+
+    def native(x):
+        raise __import__("pyvc.replay", fromlist=["OutsideHarness"]).OutsideHarness()
+
+    def raises_MultisourceRouteError(x, y, key, mask, out_directions, g_seen_before, g_pair, exc_args):
+        return (g_seen_before and any((r in g_pair.outs) != (r in out_directions) for r in ROUTES)
+                and exc_args == (key, mask, (x, y)))
+
+    def ensures_first_visit_makes_the_entry_and_a_later_one_only_adds_the_arrival_direction(direction, x, y, key, mask, out_directions, g_seen_before, g_pair, _trace):
+        arrives = None if direction is None else (direction + 3) % 6
+        n = len(_trace)
+        return (n >= 1 and _trace[0] == ("has", (x, y), (key, mask))
+                and implies(not g_seen_before,
+                            n == 2 and _trace[1][0] == "new_entry" and _trace[1][1] == (x, y) and _trace[1][2] == (key, mask)
+                            and _trace[1][3].only_in == arrives and all((r in _trace[1][3].outs) == (r in out_directions) for r in ROUTES))
+                and implies(g_seen_before,
+                            all((r in g_pair.outs) == (r in out_directions) for r in ROUTES)
+                            and _trace[n - 1] == ("in_added", arrives)
+                            and all(t[0] == "get" and t[1] == (x, y) and t[2] == (key, mask) for t in _trace[1:n - 1])))
